@@ -398,7 +398,9 @@ func runSplit(blk, maxLine int, caps []int, body []byte, chunk int, keep bool) (
 		}
 		dst := make([]byte, 0, cp)
 		var err error
-		dst, tail, err = influx.ReadLinesBlockExt(br, dst, tail, maxLine, blk)
+		if perr := hx.Safe(func() { dst, tail, err = influx.ReadLinesBlockExt(br, dst, tail, maxLine, blk) }); perr != "" {
+			return blocks, "panic"
+		}
 		eff = cap(dst)
 		if err != nil {
 			switch {
